@@ -105,6 +105,19 @@ fn main() {
         writeln!(out, "threads {} {}\t{}", v, ncpu, shown).unwrap();
         *dist.entry("threads".into()).or_insert(0) += 2;
     }
+    // threads-required: a count, "num-cpus", "num-test-threads", read from TOML (profile level) and computed against several run widths
+    for (toml_v, k) in [("1".to_string(), "count:1".to_string()), ("3".to_string(), "count:3".to_string()), ("200".to_string(), "count:200".to_string()),
+                        ("\"num-cpus\"".to_string(), "num-cpus".to_string()), ("\"num-test-threads\"".to_string(), "num-test-threads".to_string())] {
+        let toml = format!("[profile.default]\nthreads-required = {}\n", toml_v);
+        std::fs::write(dir.join(".config/nextest.toml"), &toml).unwrap();
+        let cfg = NextestConfig::from_sources(dir.clone(), &pcx, None, &[][..], &BTreeSet::new()).expect("config");
+        let bp = BuildPlatforms::new_with_no_target().unwrap();
+        let profile = cfg.profile("default").unwrap().apply_build_platforms(&bp);
+        for t in [1usize, 2, 4, 16, 1000] {
+            writeln!(out, "treq {} {} {}\t{}", k, ncpu, t, profile.threads_required().compute(t)).unwrap();
+            *dist.entry("treq".into()).or_insert(0) += 1;
+        }
+    }
     out.flush().unwrap();
     let d: Vec<String> = dist.iter().map(|(k, v)| format!("{}={}", k, v)).collect();
     eprintln!("DIST {}", d.join(" "));
